@@ -333,7 +333,12 @@ def run(v):
     for name in ('c15', 's15'):
         (nodes, edges, inits, st, out), first = graphs[name]
         replay_real_scale(v, st, out, inits, first, rnd, walks=4000 if thorough else 600, steps=40)
-    v.setc('traces_validated_against_impl', v.coverage.get('spec_transitions_replayed', 0))
+    # (C) connection level: parity / first id on the wire of real endpoints, duplicate incoming ids rejected without
+    # disturbing the live stream (hostile class 'duplicate_request': witness and probe must still be served)
+    from . import conn, families
+    conn.check(v, 'C13', families.FAMILIES['C13'], also=('C08.stream_parity', 'C17.ids_restart_at_first_id', 'C12.probe_served',
+                                                          'C01.all_delivered_at_quiescence', 'C01.deliver_is_next'))
+    v.setc('traces_validated_against_impl', v.coverage.get('spec_transitions_replayed', 0) + v.coverage.get('traces_validated_against_impl', 0))
     v.setc('exhaustive', True)
     v.setc('rule', 'every transition of the complete TLC state graph of StreamIds.tla (MaxId 7 and 15, both parities) '
                    'replayed on the real StreamControl; plus random walks of the same graph at the real 31-bit scale')
